@@ -65,7 +65,7 @@ func goValue(t gen.VT, v *gen.Val) interface{} {
 	case gen.TFloat:
 		return v.Float()
 	case gen.TTime:
-		return v.Time()
+		return v.TimeGiven()
 	case gen.TBool:
 		return v.B
 	}
@@ -85,7 +85,7 @@ func construct(t gen.VT, v *gen.Val) (fix.Value, error) {
 	case gen.TFloat:
 		return fix.NewFloat(v.Float()), nil
 	case gen.TTime:
-		return fix.NewTime(v.Time()), nil
+		return fix.NewTime(v.TimeGiven()), nil
 	case gen.TBool: // no public constructor
 		b := &fix.Bool{}
 		return b, b.Set(v.B)
